@@ -124,7 +124,12 @@ func (c *RollingCounter) incBucketValue(v int) {
 
 // Returns the number in the moving window bucket that this slot occupies.
 func (c *RollingCounter) getBucket(t time.Time) int {
-	return int(t.Truncate(c.resolution).Unix() % int64(len(c.values)))
+	// Consecutive slots must map to consecutive buckets, so count whole resolution
+	// intervals (Unix seconds only do that for a resolution of one second).
+	epoch := time.Unix(0, 0)
+	slot := int64(t.Truncate(c.resolution).Sub(epoch.Truncate(c.resolution)) / c.resolution)
+	buckets := int64(len(c.values))
+	return int(((slot % buckets) + buckets) % buckets)
 }
 
 // Reset buckets that were not updated.
